@@ -13,12 +13,12 @@ pub fn def() -> CheckDef {
         id: "C13",
         title: "Processes are isolated; outcome is independent of load, cache size and threads",
         case,
-        rule: "case = 2..12 (thorough: up to 64) concurrently started processes over 1..3 generated models with overlapping variable names, scripts writing the process env along the flow and a last step reading it (60% of the models), nodes without an id (a third of the cases), each with its own start valuation x cache capacity in {1, 2, n/2, n, 1024} (capacity below the number of processes evicts processes that are in use) x evictions of seeded processes at seeded quiescent points (dropped and reloaded from the store) x store backend x a client that answers any open interrupt of any process in a seeded order x seeded schedule, plus a second start with the pid of a live process. Every process's projection (multiset of its messages up to ids, final task outcomes, terminal event and outputs) must equal the same (model, valuation, client table) run alone with the default cache; pids unique; duplicate start refused; no message carries a foreign pid. non-trivial = at least 3 processes ran concurrently and the capacity was below their number or two processes of the same model had different valuations; distinct = distinct (scenario hash, schedule hash)",
+        rule: "case = 2..12 (thorough: up to 64) concurrently started processes over 1..3 generated models with overlapping variable names, scripts writing the process env along the flow and a last step reading it (80% of the models), nodes without an id (a third of the cases), each with its own start valuation x cache capacity in {1, 2, n/2, n, 1024} (capacity below the number of processes evicts processes that are in use) x evictions of seeded processes at seeded quiescent points (dropped and reloaded from the store) x store backend x a client that answers any open interrupt of any process in a seeded order x seeded schedule, plus a second start with the pid of a live process. Every process's projection (multiset of its messages up to ids, final task outcomes, terminal event and outputs) must equal the same (model, valuation, client table) run alone with the default cache; pids unique; duplicate start refused; no message carries a foreign pid. non-trivial = at least 3 processes ran concurrently and the capacity was below their number or two processes of the same model had different valuations; distinct = distinct (scenario hash, schedule hash)",
         level: "exploration",
         assumptions: &["runtime worker threads are approximated by task-level interleaving (layer 1)", "models without run-time generated acts (their reload is the recorded finding of C12)", "monotone simulated clock", "no storage errors are injected"],
         probes: &["probe.capacity_below_processes", "probe.evicted_and_reloaded", "probe.same_model_different_values", "probe.duplicate_start", "probe.sqlite", "probe.ten_or_more_processes", "probe.nodes_without_id"],
         quick_cases: 600,
-        no_shrink: &[],
+        no_shrink: &["client"],
     }
 }
 
@@ -67,7 +67,7 @@ fn gen_scenario(rng: &mut vsim::rng::Rng, thorough: bool) -> Scenario {
         // the process env: written by scripts somewhere along the flow (a per-process value, every writer its own
         // key: writers in parallel branches must not race for one key, the outcome would depend on the schedule by
         // the program's own fault), read by the last step - what a script has put there must still be there after the process was evicted and reloaded
-        if rng.below(5) < 3 {
+        if rng.below(5) < 4 {
             let mut n = 0;
             fn env_writers(steps: &mut [MStep], rng: &mut vsim::rng::Rng, n: &mut u32, mi: usize) {
                 for s in steps.iter_mut() {
@@ -315,7 +315,7 @@ pub fn def_b() -> CheckDef {
         level: "exploration",
         assumptions: &["preemption happens at engine lock acquisitions (all shared engine state is behind these locks)", "virtual threads are real OS threads released one at a time; the interleaving is the decision trace", "monotone simulated clock"],
         probes: &["probe.switch_inside_client_call", "probe.forced_switch", "probe.three_client_threads", "probe.non_complete_action_accepted", "probe.action_while_tasks_queued"],
-        quick_cases: 1500,
+        quick_cases: 3000,
         no_shrink: &[],
     }
 }
